@@ -82,6 +82,7 @@ class Spec:
         self.late = kw.pop("late", None) or {}
         # C20: ONE specification fault injected into an otherwise well-posed specification: (kind, position)
         self.fault = kw.pop("fault", None)
+        self.der_order = kw.pop("der_order", "declared")    # order of the set_der calls: 'declared' or 'reversed'
         self.scales = kw.pop("scales", {})                 # 'x': value/list, 'u', 'z', 'v', 'der'
         self.param_values = kw.pop("param_values", "unknown")
         self.solver = kw.pop("solver", "ipopt")
@@ -172,7 +173,11 @@ class Spec:
             if spec[0] == "fixed":
                 kw[key] = spec[1]
             elif spec[0] == "free":
-                kw[key] = FreeTime(spec[1])
+                g = spec[1]
+                if g == "unknown":          # ANY guess (for t0 also negative ones)
+                    g = unknown("free_guess_" + key, positive=(key == "T"))
+                    self.free_guess = dict(getattr(self, "free_guess", {}), **{key: g})
+                kw[key] = FreeTime(g)
             elif spec[0] == "unknown":
                 val = unknown("horizon_" + key, positive=(key == "T"))
                 setattr(self, key + "_value", val)
@@ -208,15 +213,18 @@ class Spec:
             if self.fault and self.fault[0] == "foreign-symbol-in-ode":
                 rhs = rhs + ca.MX.sym("alien")    # FAULT: a symbol that does not belong to the OCP
             off = 0
+            calls = []
             for i, (x, n) in enumerate(zip(S["x"], self.states)):
                 if self.fault and self.fault[0] == "missing-der" and self.fault[1] % len(self.states) == i:
                     off += n
                     continue                      # FAULT: this state gets no derivative / update rule
                 if self.discrete:
-                    ocp.set_next(x, rhs[off:off + n])
+                    calls.append(lambda x=x, r_=rhs[off:off + n]: ocp.set_next(x, r_))
                 else:
-                    ocp.set_der(x, rhs[off:off + n], scale=self._scale("der", i, n))
+                    calls.append(lambda x=x, r_=rhs[off:off + n], sc=self._scale("der", i, n): ocp.set_der(x, r_, scale=sc))
                 off += n
+            for call in (reversed(calls) if self.der_order == "reversed" else calls):
+                call()            # the order of the set_der calls is not the order of the state declarations
         if self.alg is not None and self.algebraics:
             ocp.add_alg(E(self.alg.name, sum(self.algebraics), self.alg.deps).on(self.atom))
         # parameter values
@@ -274,7 +282,11 @@ class Spec:
             kind_, pos_ = self.fault
             X0 = S["x"][pos_ % len(S["x"])]
             if kind_ == "unknown-grid":
-                ocp.subject_to(X0 <= 1, grid="nonsense")
+                # at every kind of subject_to position: path, boundary (t0 / tf), and -- if there are any -- global variables
+                forms = [lambda: X0 <= 1, lambda: ocp.at_t0(X0) == 0, lambda: ocp.at_tf(X0) <= 2]
+                if S[("v", "")]:
+                    forms.append(lambda: S[("v", "")][0] <= 3)
+                ocp.subject_to(forms[pos_ % len(forms)](), grid="nonsense")
             elif kind_ == "foreign-symbol-in-constraint":
                 ocp.subject_to(X0 + ca.MX.sym("alien", X0.shape[0]) <= 1)
             elif kind_ == "foreign-symbol-in-objective":
